@@ -269,8 +269,10 @@ def mentions_only(t, dsl):
     """term is built from constants and the message's data slice only"""
     if t == dsl:
         return True
-    if not isinstance(t, tuple):
+    if not isinstance(t, tuple) or not t:
         return True
+    if isinstance(t[0], tuple):
+        return all(mentions_only(x, dsl) for x in t)      # an argument tuple: every element counts
     if t[0] == "sym":
         return False
     if t[0] == "proj" and t[1] == dsl:
